@@ -595,6 +595,7 @@ def overused_constant(source: str, *, root_is_static: bool) -> str:
         nodes = list(nodes)
         if (
             core.match_template(nodes[0], ast.Constant(value=str))
+            and nodes[0].value.isascii()  # The words of a name are only found among ascii letters
             and re.match(r"[a-zA-Z_]\w*", nodes[0].value)
             and re.sub(r"[^a-zA-Z0-9_]", "", nodes[0].value)
         ):
